@@ -128,12 +128,6 @@ def convert(
     # transform functions to proc calls
     basic_prog.visit(BasicFunctionalExpressionPatcherVisitor())
 
-    set_string_storage_vistor: SetDimStringStorageVisitor = SetDimStringStorageVisitor(
-        default_str_storage=default_str_storage,
-        string_configs=compiler_configs.string_configs,
-    )
-    basic_prog.visit(set_string_storage_vistor)
-
     # Declare implicitly declared arrays
     dimmed_array_visitor = GetDimmedArraysVisitor()
     basic_prog.visit(dimmed_array_visitor)
@@ -143,6 +137,12 @@ def convert(
     )
     basic_prog.visit(declare_array_visitor)
     basic_prog.insert_lines_at_beginning(declare_array_visitor.dim_statements)
+
+    set_string_storage_vistor: SetDimStringStorageVisitor = SetDimStringStorageVisitor(
+        default_str_storage=default_str_storage,
+        string_configs=compiler_configs.string_configs,
+    )
+    basic_prog.visit(set_string_storage_vistor)
 
     # allocate sufficient string storage
     str_var_allocator: StrVarAllocatorVisitor = StrVarAllocatorVisitor(
